@@ -16,6 +16,7 @@ Fixpoint vrel (t : sty) (v : cval) (w : gval) : Prop :=
   | SKDbl b => v = VDouble b /\ (w = GUFloat b \/ exists z, w = GUInt z /\ z2f z = b)
   | SList te => exists vs ws, v = VList vs /\ w = GSlice ws /\ Forall2 (vrel te) vs ws /\ in_i64 (Z.of_nat (length ws)) = true
   | SIfaces => exists vs ws, v = VList vs /\ w = GIface ws /\ length vs = length ws /\ in_i64 (Z.of_nat (length ws)) = true
+  | SMapSI => exists m gm, v = VMap m /\ w = GMap gm /\ length m = length gm /\ in_i64 (Z.of_nat (length gm)) = true
   end.
 
 (* the Go side always produces a value of the right type; the CEL side produces the related value or an error *)
